@@ -329,7 +329,7 @@ func checkChunkFold(p *Program, r *Result) {
 						if ((c.Op == token.NEQ && onTrue) || (c.Op == token.EQL && !onTrue)) && (chunkTime(c.X) && zero(c.Y) || chunkTime(c.Y) && zero(c.X)) {
 							hasMsgs = true
 						}
-						if loadOfField(c.X, "Writer", "currentChunkMessageCount") || loadOfField(c.Y, "Writer", "currentChunkMessageCount") {
+						if p.chunkAcc().isCountLoad(c.X) || p.chunkAcc().isCountLoad(c.Y) {
 							hasMsgs = true
 						}
 						if ((c.Op == token.EQL && onTrue) || (c.Op == token.NEQ && !onTrue)) && (loadOfField(c.X, "Statistics", "MessageCount") && zero(c.Y) || loadOfField(c.Y, "Statistics", "MessageCount") && zero(c.X)) {
